@@ -14,7 +14,8 @@ Oracles
   * env datasets: the original instances are env.generator(N) under the same torch seed; rows are
     identified by a content fingerprint over all keys.
   * rollout baseline: extra[i] vs. the greedy reward of an independent snapshot of the baseline policy on
-    instance i decoded SOLO (batch of one) in eval mode; argmax-stability rule: an instance whose solo decode
+    instance i decoded SOLO (batch of one) in eval mode with decode_type="greedy" passed explicitly (whatever the
+    policy's train/val/test_decode_type constructor options say); argmax-stability rule: an instance whose solo decode
     has a top-2 log-prob gap <= 1e-4 at some step is don't-care when the values differ. The snapshot is taken
     before setup and never sees the mode switches applied to the module / baseline / actor.
   * module phases: the originals of a phase are the npz files configured on the env for that phase or the
@@ -72,6 +73,10 @@ RULE = (
     "policy on instance i, untouched train set after the last epoch, train_dataloader serving exactly that set. "
     "mdam_wrap: MDAM(baseline='rollout') (2-3 decoder paths) - baseline values and extra of the hook-renewed train set "
     "= best-path greedy reward of an independent copy of the baseline policy (float32 vs float64 stability rule). "
+    "rollout_wrap / epoch_hooks: the policy is built with the constructor options train_decode_type / val_decode_type / "
+    "test_decode_type, each drawn in {greedy, sampling} with the library default (sampling, greedy, greedy) as the most "
+    "frequent value of each option; the oracle stays the harness' own decode_type='greedy' decode of the frozen copy "
+    "(events decode_types=library_default|non_default, <phase>_decode_type=<non-default value>). "
     "Non-trivial = final partial batch (N % bs != 0) "
     "and, for the loader subs, shuffle on with an extra key; for rollout_wrap additionally >=1 decisive instance; for "
     "module_phases shuffle_train_dataloader on and a val/test dataset with N >= 3 and a final partial batch. "
@@ -85,6 +90,12 @@ ASSUMPTIONS = [
     "of env.dataset); verified for the 14 envs used",
     "rollout oracle: independent deepcopy of the policy taken before baseline.setup, eval mode, greedy, batch of "
     "one; equality to 1e-5*(1+|r|) asserted only for instances whose solo decode is decisive (top-2 gap > 1e-4)",
+    "the rollout baseline is a GREEDY rollout (class docstring 'use greedy rollout as baseline', property text "
+    "'greedy-rollout baseline value'): bl_vals and the values wrap_dataset attaches are greedy rewards of the frozen "
+    "baseline policy also when the policy was built with non-greedy train/val/test_decode_type (those govern the "
+    "policy's own train / validation / test forward passes, not the baseline evaluation; on the unchanged tree "
+    "RolloutBaseline.rollout passes decode_type='greedy' explicitly). MDAMPolicy does not forward these constructor "
+    "options (they end up in the decoder's kwargs): not drawn for mdam_wrap",
     "RL4COLitModule._dataloader with a *list* of datasets and REINFORCE(baseline='rollout_only').setup() crash on "
     "the unchanged tree; recorded as observations (events) only, by decision of the lead",
     "dataloader_num_workers = 0 (library default) except in the loader_workers sub (1-2 forked workers; tiny "
@@ -799,6 +810,37 @@ _HIST = st.one_of(st.just([]), st.just(["model.train"]), st.lists(st.sampled_fro
 
 
 @st.composite
+def decode_types(draw):
+    """Policy constructor options train_decode_type / val_decode_type / test_decode_type, each greedy | sampling with the
+    library default (sampling, greedy, greedy) as the most frequent value of every option."""
+    return [draw(st.sampled_from(["sampling", "sampling", "sampling", "greedy"])),
+            draw(st.sampled_from(["greedy", "greedy", "sampling"])),
+            draw(st.sampled_from(["greedy", "greedy", "sampling"]))]
+
+
+def dec_events(ctx, dec):
+    """class counters of the phase decode types of the policy (non-default classes spelled out)"""
+    dec = list(dec or _DEC_DEFAULT)
+    if dec == _DEC_DEFAULT:
+        ctx.event("decode_types=library_default")
+        return
+    ctx.event("decode_types=non_default")
+    for ph, got, dflt in zip(("train", "val", "test"), dec, _DEC_DEFAULT):
+        if got != dflt:
+            ctx.event(f"{ph}_decode_type={got}")
+
+
+_DEC_DEFAULT = ["sampling", "greedy", "greedy"]
+
+
+def _dec_note(dec):
+    if not dec or list(dec) == _DEC_DEFAULT:
+        return ""
+    return (f" [policy built with train/val/test_decode_type={'/'.join(dec)}; the rollout baseline is documented as a "
+            f"*greedy* rollout whatever the phase attributes say]")
+
+
+@st.composite
 def cases_b(draw, tier="quick"):
     N = draw(st.integers(2, 12))
     nondiv = [b for b in range(2, N) if N % b]
@@ -821,21 +863,27 @@ def cases_b(draw, tier="quick"):
                 bnstats=draw(st.sampled_from(["fresh", "trained"])),
                 actor0=draw(st.sampled_from(["train", "train", "eval"])),
                 hist1=draw(_HIST), hist2=draw(_HIST), hist3=draw(_HIST), sel=sel,
-                eval_bs2=draw(st.integers(1, len(sel) + 1)))
+                eval_bs2=draw(st.integers(1, len(sel) + 1)), dec=draw(decode_types()))
 
 
-def _policy(env_name, embed_dim, seed, spread, modedep="bn", bnstats="fresh"):
+def _policy(env_name, embed_dim, seed, spread, modedep="bn", bnstats="fresh", dec=None):
     """Tiny AttentionModelPolicy with mode-dependent layers: batch normalization (the constructor default) and/or a
     dropout layer behind the initial embedding (the constructor offers no dropout option; `do` = instance
     normalization + dropout, `bn+do` = both). `trained` gives the batch-norm layers non-trivial running statistics
-    (as after training / loading a checkpoint) so that eval mode is not the identity-like fresh state."""
+    (as after training / loading a checkpoint) so that eval mode is not the identity-like fresh state.
+    `dec` = [train_decode_type, val_decode_type, test_decode_type] constructor options (None: not passed = defaults)."""
     import torch.nn as nn
     from rl4co.models import AttentionModelPolicy
 
     torch.manual_seed(seed)
+    kw = {} if dec is None else dict(train_decode_type=dec[0], val_decode_type=dec[1], test_decode_type=dec[2])
     pol = AttentionModelPolicy(env_name=env_name, embed_dim=embed_dim, num_encoder_layers=1, num_heads=2,
                                feedforward_hidden=2 * embed_dim,
-                               normalization="instance" if modedep == "do" else "batch")
+                               normalization="instance" if modedep == "do" else "batch", **kw)
+    if dec is not None and [pol.train_decode_type, pol.val_decode_type, pol.test_decode_type] != list(dec):
+        from ..runner import HarnessError
+
+        raise HarnessError(f"policy did not take the decode types {dec}")
     with torch.no_grad():
         for p in pol.parameters():
             p.mul_(spread)
@@ -957,7 +1005,7 @@ def execute_b(case, ctx):
     modedep, bnstats = case.get("modedep", "bn"), case.get("bnstats", "fresh")
     hist1, hist2, hist3 = case.get("hist1", []), case.get("hist2", []), case.get("hist3", [])
     env = _get_env(case["env"], case["num_loc"], case["dcls"])
-    policy = _policy(case["env"], case["embed_dim"], case["pseed"], case["spread"], modedep, bnstats)
+    policy = _policy(case["env"], case["embed_dim"], case["pseed"], case["spread"], modedep, bnstats, case.get("dec"))
     policy.train(case.get("actor0", "train") == "train")  # the mode the actor is handed over in
     snap = copy.deepcopy(policy).eval()
     tag = f"{case['env']}|{case['mode']}"
@@ -993,7 +1041,8 @@ def execute_b(case, ctx):
     evref = {k: evb[k].clone() for k in evb.keys()}
     ctx.check(len(inner.bl_vals) == M and evb.batch_size[0] == M, f"bl_vals_len|{tag}",
               f"{len(inner.bl_vals)} baseline values for an evaluation set of {M}")
-    if _compare_values(ctx, inner.bl_vals, snap, env, evref, M, tag, "bl_vals_mismatch") is None:
+    dnote = _dec_note(case.get("dec"))
+    if _compare_values(ctx, inner.bl_vals, snap, env, evref, M, tag, "bl_vals_mismatch", note=dnote) is None:
         return
 
     # training moves on (mode switches of the fit / validation loops, parameter updates); the baseline must stay
@@ -1039,7 +1088,7 @@ def execute_b(case, ctx):
         ctx.check(_state_equal(policy, actor_before), f"actor_changed_by_wrap|{tag}",
                   f"{which}: wrap_dataset changed parameters / buffers of the training policy (actor)")
         return out, (f" [frozen copy was in {copy_mode} mode when wrap_dataset was called; mode history after setup: "
-                     f"{hist1 + hist2 + (hist3 if which == 'wrap2' else [])}]")
+                     f"{hist1 + hist2 + (hist3 if which == 'wrap2' else [])}]" + dnote)
 
     ref, dataset = _gen_and_dataset(ctx, env, N, "train", case["dseed"] + 1)
     wrapped, note = wrap_checked(dataset, "wrap1", eval_bs)
@@ -1123,10 +1172,11 @@ def execute_b(case, ctx):
     ctx.event(f"eval_bs_divides_N={int(N % eval_bs == 0)}")
     ctx.event(f"perturbed={int(bool(case['perturb']))}")
     ctx.event(f"modedep={modedep}|bnstats={bnstats}")
+    dec_events(ctx, case.get("dec"))
     if N % eval_bs != 0 and extra is not None and decisive >= 1:
         ctx.nontriv()
     ctx.sample({k: case[k] for k in ("env", "num_loc", "N", "M", "eval_bs", "train_bs", "mode", "dcls", "perturb")}
-               | {"modedep": modedep, "hist": [hist1, hist2, hist3]})
+               | {"modedep": modedep, "hist": [hist1, hist2, hist3], "dec": case.get("dec")})
 
 
 # --------------------------------------------------------------------------- observations (never violations)
